@@ -4,7 +4,7 @@
     [rsum f n] = f 0 + ... + f (n-1); [dlt] = Kronecker delta; [ment M i j] = entry (i,j) of a list-of-rows matrix.
     All statements are over the reals, for every dimension. *)
 From Coq Require Import Reals List.
-From LP Require Import Num NumR C15_Model C15_Proofs C15_Proofs_QR C15_Proofs_Scale C15_Proofs_Iter C15_Proofs_Session C15_Proofs_Inv C15_Proofs_Diag.
+From LP Require Import Num NumR C15_Model C15_Proofs C15_Proofs_QR C15_Proofs_Scale C15_Proofs_Iter C15_Proofs_Session C15_Proofs_Inv C15_Proofs_Diag C15_Proofs_Stop.
 Import ListNotations.
 Local Open Scope R_scope.
 
@@ -397,3 +397,64 @@ Print Assumptions C15_qr_sweep_fixes_diagonal.
 Theorem C15_eigenvalues_of_diagonal_example : eigenvalues ROps (diagm [3; -2; 1/2]) = Ok [3; -2; 1/2].
 Proof. exact eigenvalues_diagm_example. Qed.
 Print Assumptions C15_eigenvalues_of_diagonal_example.
+
+(** ** "Eigenvalues returns the spectrum" — what the stopping test guarantees entry by entry (C15_Proofs_Stop.v).
+    The test of Eigenvalues adds up ABSOLUTE values below the diagonal; a matrix that passes it has every single entry below the diagonal
+    under 1e-12 of the diagonal mass (entries of opposite sign cannot cancel in the test). *)
+Theorem C15_converged_bounds_every_entry n (A : list (list R)) : wf n A -> eig_converged A ->
+  0 < rsum (fun j => Rabs (ment ROps A j j)) n ->
+  forall j k, (j < k)%nat -> (k < n)%nat -> Rabs (ment ROps A k j) < 1 / 1000000000000 * rsum (fun j => Rabs (ment ROps A j j)) n.
+Proof. exact (converged_bounds_every_entry n A). Qed.
+Print Assumptions C15_converged_bounds_every_entry.
+
+(** whatever Eigenvalues returns for a non-singular symmetric M is the diagonal of an orthogonally similar A = Q^T M Q every off-diagonal
+    entry of which is below 1e-12 of the diagonal mass of A (when that mass is positive) *)
+Theorem C15_eigenvalues_every_entry_small n (M : list (list R)) evs : wf n M -> nonsing n (ment ROps M) ->
+  (forall i j, (i < n)%nat -> (j < n)%nat -> ment ROps M i j = ment ROps M j i) ->
+  eigenvalues ROps M = Ok evs ->
+  exists (A : list (list R)) (q : nat -> nat -> R),
+    wf n A /\ orth n q /\ eqn n (ment ROps A) (mm n (tr q) (mm n (ment ROps M) q)) /\ evs = diagonal ROps A /\
+    (0 < rsum (fun j => Rabs (ment ROps A j j)) n ->
+     forall j k, (j < n)%nat -> (k < n)%nat -> j <> k ->
+       Rabs (ment ROps A k j) < 1 / 1000000000000 * rsum (fun j => Rabs (ment ROps A j j)) n).
+Proof. exact (eigenvalues_every_entry_small n M evs). Qed.
+Print Assumptions C15_eigenvalues_every_entry_small.
+
+(** non-vacuity, and the point of the absolute values: a matrix whose entries below the diagonal (1/100, -1/100, 0) add up to zero does
+    not pass the test; diag(2, -1) does *)
+Theorem C15_cancelling_entries_do_not_pass :
+  let A := [[1; 0; 0]; [1/100; -3/4; 0]; [-1/100; 0; 1/2]] in
+  wf 3 A /\ ment ROps A 1 0 + ment ROps A 2 0 + ment ROps A 2 1 = 0 /\ ~ eig_converged A.
+Proof. exact cancelling_entries_do_not_pass. Qed.
+Print Assumptions C15_cancelling_entries_do_not_pass.
+Theorem C15_converged_example :
+  let A := [[2; 0]; [0; -1]] in wf 2 A /\ eig_converged A /\ 0 < rsum (fun j => Rabs (ment ROps A j j)) 2.
+Proof. exact converged_example. Qed.
+Print Assumptions C15_converged_example.
+
+(** ** "for each eigenvalue a unit vector v and value lambda with M v = lambda v" — eigenvalues that sit on the diagonal of a coupled coordinate.
+    A matrix that commutes with the exchange of the coordinates i, j has the eigenvector e_i - e_j (zero components) with the eigenvalue
+    m_ii - m_ij, a value that may stand on the diagonal at a third coordinate k; the coordinate vector e_k is an eigenvector of no matrix
+    in which coordinate k is coupled, whatever stands at m_kk. *)
+Theorem C15_exchange_symmetric_eigenvector n i j (a : nat -> nat -> R) : (i < n)%nat -> (j < n)%nat -> i <> j ->
+  (forall r c, (r < n)%nat -> (c < n)%nat -> a (transp i j r) (transp i j c) = a r c) ->
+  forall r, (r < n)%nat -> rsum (fun c => a r c * antisym_vec i j c) n = (a i i - a i j) * antisym_vec i j r.
+Proof. exact (exchange_symmetric_eigenvector n i j a). Qed.
+Print Assumptions C15_exchange_symmetric_eigenvector.
+
+Theorem C15_coupled_coordinate_not_eigenvector n k (a : nat -> nat -> R) : (k < n)%nat ->
+  (exists c, (c < n)%nat /\ c <> k /\ a c k <> 0) ->
+  ~ exists lam, forall r, (r < n)%nat -> rsum (fun c => a r c * coord_vec k c) n = lam * coord_vec k r.
+Proof. exact (coupled_coordinate_not_eigenvector n k a). Qed.
+Print Assumptions C15_coupled_coordinate_not_eigenvector.
+
+(** non-vacuity: [[2,3,3],[3,1,-1],[3,-1,1]] commutes with the exchange of the coordinates 1, 2, its eigenvalue m_11 - m_12 = 2 stands at m_00,
+    (0, 1, -1) is an eigenvector for it and e_0 is an eigenvector for no value *)
+Theorem C15_diagonal_entry_is_eigenvalue_example :
+  let a := ment ROps [[2; 3; 3]; [3; 1; -1]; [3; -1; 1]] in
+  (forall r c, (r < 3)%nat -> (c < 3)%nat -> a (transp 1 2 r) (transp 1 2 c) = a r c) /\
+  a 1%nat 1%nat - a 1%nat 2%nat = a 0%nat 0%nat /\
+  (forall r, (r < 3)%nat -> rsum (fun c => a r c * antisym_vec 1 2 c) 3 = a 0%nat 0%nat * antisym_vec 1 2 r) /\
+  ~ exists lam, forall r, (r < 3)%nat -> rsum (fun c => a r c * coord_vec 0 c) 3 = lam * coord_vec 0 r.
+Proof. exact diagonal_entry_is_eigenvalue_example. Qed.
+Print Assumptions C15_diagonal_entry_is_eigenvalue_example.
